@@ -4,7 +4,7 @@ use std::sync::atomic::{AtomicBool, AtomicPtr, AtomicU64, Ordering};
 use std::sync::Arc;
 
 use parking_lot::Mutex;
-use tokio::sync::{oneshot, Semaphore};
+use tokio::sync::{oneshot, OwnedSemaphorePermit, Semaphore};
 
 use crate::batch::Batch;
 use crate::error::{Error, Result};
@@ -39,6 +39,10 @@ struct CommitBatch {
 	count: u32, // Number of entries in the batch
 	applied: AtomicBool,
 	complete_tx: Mutex<Option<oneshot::Sender<Result<()>>>>,
+	// Flow-control permit of the committer. It lives as long as the batch
+	// object, i.e. until the batch has left the queue AND `commit()` has
+	// returned, so the ring can never hold more batches than there are permits.
+	permit: Mutex<Option<OwnedSemaphorePermit>>,
 }
 
 impl CommitBatch {
@@ -49,8 +53,13 @@ impl CommitBatch {
 			count,
 			applied: AtomicBool::new(false),
 			complete_tx: Mutex::new(Some(tx)),
+			permit: Mutex::new(None),
 		});
 		(commit, rx)
+	}
+
+	fn hold_permit(&self, permit: OwnedSemaphorePermit) {
+		*self.permit.lock() = Some(permit);
 	}
 
 	fn set_seq_num(&self, seq: u64) {
@@ -268,10 +277,17 @@ impl CommitPipeline {
 		self.write_stall.check().await?;
 
 		// Acquire permit for flow control
-		let _permit = self.commit_sem.acquire().await.map_err(|_| Error::PipelineStall)?;
+		let permit = Arc::clone(&self.commit_sem)
+			.acquire_owned()
+			.await
+			.map_err(|_| Error::PipelineStall)?;
 		verif_yield!("commit.have_permit");
 
 		let (commit_batch, complete_rx) = CommitBatch::new(batch.count());
+		// A failed commit returns while its batch may still sit in the queue
+		// behind an unapplied one; keeping the permit with the batch prevents
+		// later committers from overflowing the ring in that situation.
+		commit_batch.hold_permit(permit);
 
 		// === CRITICAL SECTION under write_mutex ===
 		//
